@@ -196,3 +196,6 @@ impl TopicAliasSend {
         self.max_alias
     }
 }
+
+#[cfg(feature = "verif-hooks")]
+mod verif;
